@@ -49,7 +49,13 @@ type Violation struct {
 	Pos     string
 }
 
+type watch struct {
+	field string
+	fn    Value
+}
+
 type Machine struct {
+	watches []watch
 	*Program
 	solver *Solver
 	pc     []*Term
